@@ -120,6 +120,7 @@ struct Outcome {
   std::string sig;  // failure class signature (matched against known findings)
   bool nontrivial = false;
   std::vector<std::string> classes;
+  std::map<std::string, uint64_t> counters;  // summed into evidence coverage.counters
   void fail(const std::string &s, const std::string &m) {
     if (ok) {
       ok = false;
@@ -181,6 +182,8 @@ struct State {
   char *last = nullptr;
   size_t last_cap = 1 << 22;
   double deadline = 0;
+  double shrink_deadline = 0;   // after the first failure: stop shrinking after this instant
+  double shrink_budget = 30;
 };
 inline State &st() {
   static State s;
@@ -217,6 +220,7 @@ inline std::string ser_outcome(const Outcome &o) {
   c.push_back(Op("o", {o.ok, o.nontrivial}, o.msg));
   c.push_back(Op("s", {}, o.sig));
   for (auto &x : o.classes) c.push_back(Op("c", {}, x));
+  for (auto &kv : o.counters) c.push_back(Op("n", {(int64_t)kv.second}, kv.first));
   return to_text(c);
 }
 inline Outcome de_outcome(const std::string &t) {
@@ -232,7 +236,10 @@ inline Outcome de_outcome(const std::string &t) {
   o.nontrivial = c[0].a[1];
   o.msg = c[0].b;
   o.sig = c[1].b;
-  for (size_t i = 2; i < c.size(); i++) o.classes.push_back(c[i].b);
+  for (size_t i = 2; i < c.size(); i++) {
+    if (c[i].k == "c") o.classes.push_back(c[i].b);
+    else if (c[i].k == "n" && !c[i].a.empty()) o.counters[c[i].b] += (uint64_t)c[i].a[0];
+  }
   return o;
 }
 inline Outcome run_forked(const Sub &s, const Case &c) {
@@ -337,6 +344,7 @@ inline bool execute(const Case &c) {
     S.truncated++;
     return true;
   }
+  if (S.failed && S.shrink_deadline > 0 && now() > S.shrink_deadline) return true;  // stop shrinking, keep current minimum
   std::string text = to_text(c);
   if (S.last) {
     size_t n = std::min(text.size(), S.last_cap - 1);
@@ -356,6 +364,7 @@ inline bool execute(const Case &c) {
       S.digests.insert(fnv(text));
     }
     for (auto &cl : o.classes) S.classes[cl]++;
+    for (auto &kv : o.counters) S.counters[kv.first] += kv.second;
     if (o.ok && S.samples.size() < 12) {
       std::string key = o.classes.empty() ? std::string(o.nontrivial ? "nt" : "t") : o.classes[0];
       if (o.nontrivial || S.samples.empty()) {
@@ -367,6 +376,7 @@ inline bool execute(const Case &c) {
     }
   }
   if (!o.ok) {
+    if (!S.failed) S.shrink_deadline = now() + S.shrink_budget;
     S.failed = true;
     S.fail_msg = o.msg;
     S.fail_sig = o.sig;
@@ -405,6 +415,7 @@ inline int pbt_main(int argc, char **argv, const std::vector<Sub> &subs) {
     else if (a == "--fork") forkm = true;
     else if (a == "--max-seconds") maxsec = atof(nx().c_str());
     else if (a == "--known") known = nx();
+    else if (a == "--shrink-seconds") st().shrink_budget = atof(nx().c_str());
     else if (a == "--list") {
       for (auto &s : subs) printf("%s\n", s.name.c_str());
       return 0;
